@@ -135,10 +135,42 @@ def _parse_tlc_stdout(path, res, want_cases=True, tags=("CASE",)):
     res.stdout_tail = "".join(tail[-120:])
 
 
+def run_model(ctx, module, timeout, thorough_seeds=None, **kw):
+    """the model of a property at the tier of ctx; the thorough tier of models with a Seed constant runs several seeds"""
+    cfg = "%s_%s.cfg" % (module, ctx.tier)
+    if ctx.tier == "thorough" and thorough_seeds:
+        return run_tlc_seeds(module, cfg, thorough_seeds, timeout=timeout, **kw)
+    return run_tlc(module, cfg, timeout=timeout, **kw)
+
+
+def run_tlc_seeds(module, cfg, seeds, **kw):
+    """The same model under several values of the constant Seed (different control nets and weight patterns): one TLC run per
+    value; cases are concatenated, state counts added.  The first failing run is returned as it is."""
+    total = None
+    for sd in seeds:
+        r = run_tlc(module, cfg, overrides={"Seed": str(sd)}, **kw)
+        if not r.ok or r.error:
+            return r
+        if total is None:
+            total = r
+            total.cmd += "  [Seed = %s]" % ", ".join(map(str, seeds))
+        else:
+            total.cases += r.cases
+            total.lines += r.lines
+            total.generated += r.generated
+            total.distinct += r.distinct
+            total.depth = max(total.depth, r.depth)
+            total.wall += r.wall
+    return total
+
+
 def run_tlc(module, cfg, env=None, workers=None, timeout=3600, simulate=None, extra=None, tags=("CASE",),
-            coverage=False, jvm=None, postcondition_ok=True):
-    """Run TLC on spec/<module>.tla with spec/<cfg>; returns TLCResult (cases = decoded PrintT lines)."""
+            coverage=False, jvm=None, postcondition_ok=True, overrides=None):
+    """Run TLC on spec/<module>.tla with spec/<cfg>; returns TLCResult (cases = decoded PrintT lines).
+    overrides: {constant: value text} replaces `constant = ...` lines of the configuration (written to the scratch directory)."""
     workers = workers or NCPU
+    if overrides:
+        extra = list(extra or []) + ["--overrides--"] + ["%s=%s" % kv for kv in sorted(overrides.items())]
     # Diagnostic campaigns (tools/mutants.py) replay the SAME specification output into many variants of the code: the output of a
     # pure-specification run does not depend on the code, so it may be kept between runs.  Never set by a registered command.
     cache_dir = os.environ.get("VERIF_TLC_CACHE")
@@ -161,10 +193,25 @@ def run_tlc(module, cfg, env=None, workers=None, timeout=3600, simulate=None, ex
     scratch = tempfile.mkdtemp(prefix="verif_tlc_")
     out = os.path.join(scratch, "stdout.txt")
     os.makedirs(os.path.join(scratch, "jtmp"), exist_ok=True)
+    if overrides:
+        extra = extra[:extra.index("--overrides--")]
+        with open(os.path.join(SPEC, cfg)) as fh:
+            txt = fh.read()
+        for name, val in overrides.items():
+            txt2 = re.sub(r"(?m)^(\s*)%s\s*=.*$" % re.escape(name), r"\g<1>%s = %s" % (name, val), txt)
+            if txt2 == txt and not re.search(r"(?m)^\s*%s\s*=\s*%s\s*$" % (re.escape(name), re.escape(val)), txt):
+                raise MachineryError("constant %s not found in %s" % (name, cfg))
+            txt = txt2
+        cfg_path = os.path.join(scratch, "override_" + cfg)
+        with open(cfg_path, "w") as fh:
+            fh.write(txt)
+        cfg_for_tlc = cfg_path
+    else:
+        cfg_for_tlc = cfg
     cmd = ["java", "-XX:+UseParallelGC", "-XX:ParallelGCThreads=4", "-Xms2g", "-Xmx12g", "-Xss32m",
            "-Djava.io.tmpdir=" + os.path.join(scratch, "jtmp")] + (jvm or []) + ["-cp", TLA_CP, "tlc2.TLC",
            "-workers", str(workers), "-metadir", os.path.join(scratch, "meta"), "-noGenerateSpecTE",
-           "-config", cfg]
+           "-config", cfg_for_tlc]
     if coverage:
         cmd += ["-coverage", "1"]
     if simulate:
@@ -176,7 +223,7 @@ def run_tlc(module, cfg, env=None, workers=None, timeout=3600, simulate=None, ex
     if env:
         e.update({k: str(v) for k, v in env.items()})
     res = TLCResult()
-    res.cmd = " ".join(cmd[cmd.index("tlc2.TLC"):]).replace(scratch, "$SCRATCH")
+    res.cmd = " ".join(cmd[cmd.index("tlc2.TLC"):]).replace(scratch, "$SCRATCH") + ((" with " + ", ".join("%s = %s" % kv for kv in sorted(overrides.items()))) if overrides else "")
     t0 = time.time()
     try:
         with open(out, "w") as fo:
